@@ -438,3 +438,17 @@ pub(crate) async fn verif_add_response(
         Vec::new()
     }
 }
+
+#[cfg(simple_dns_verif)]
+/// verification hook: run the async add_response_to_resources with a discovery channel whose receiver was dropped
+pub(crate) async fn verif_add_response_closed_channel(
+    packet: Packet<'_>,
+    service_name: &Name<'_>,
+    full_name: &Name<'_>,
+    owned_resources: &mut ResourceRecordManager<'static>,
+) {
+    let (sender, receiver) = tokio::sync::mpsc::channel(16);
+    drop(receiver);
+    let mut on_discovery = Some(sender);
+    add_response_to_resources(packet, service_name, full_name, owned_resources, &mut on_discovery).await;
+}
